@@ -761,7 +761,9 @@ pub fn gen_desc(r: &mut StdRng, o: &GenOpts) -> Desc {
             let offv = if o.instantiable { r.gen_range(0..=cap.saturating_sub(len as u64).min(70000)) } else { *[0u64, 1, 100, 65535, 65536, 70000].choose(r).unwrap() };
             let offty = if m.m64 { T::I64 } else { T::I32 };
             let imp_same: Vec<u32> = d.globals.iter().enumerate().filter(|(_, g)| g.imported && !g.mutable && g.ty == offty).map(|(i, _)| i as u32).collect();
-            let offset = if !imp_same.is_empty() && r.gen_bool(0.3) && !o.instantiable {
+            // instantiable modules too: the host gives an imported global a small value (Exec.tla: 11 + its tag), so the
+            // segment fits whenever the memory has a page
+            let offset = if !imp_same.is_empty() && r.gen_bool(0.3) && (!o.instantiable || m.min >= 1) {
                 Expr::Global(*imp_same.choose(r).unwrap())
             } else if m.m64 {
                 Expr::I64(offv as i64)
